@@ -45,9 +45,12 @@ CHECKS = {
          "Trusted: Lean kernel + standard axioms; POSIX write semantics; path text / regex outside the model. Value decode per row group is C01/C03.",
          "Lean 4 proof + trace/byte correspondence over histories", "§6 C07"),
  "C09": ("Lean 4 model of the dataset-edit state machine (append, partition overwrite, row-group removal, two-pass part-file "
-         "renumbering driven by part_ids keyed by bare part number) with theorems that append and removal preserve the agreement "
-         "invariant (every referenced file exists with the stated rows, no unreferenced part file) and refine the plain "
-         "partition->rows specification; tied to the code by step-by-step correspondence of directory listing and row-group list over "
+         "renumbering through .tmp names) with the theorem agree_after_every_history: after ANY sequence of write / append / overwrite / "
+         "remove_row_groups / write_row_groups(sort_key) / _sort_part_names, with or without renumbering, every referenced file exists with "
+         "the stated rows, there is no unreferenced part file and no two row groups share a file (induction over the operations; "
+         "sort_names_total_and_neutral: the renumbering cannot fail or clobber a live file and leaves content unchanged with number = "
+         "position); append / removal refine the plain partition->rows specification; the driver runs the very step function the "
+         "theorems are about; tied to the code by step-by-step correspondence of directory listing and row-group list over "
          "random histories; the invariant and the plain model are also evaluated directly on the real directory after every step.",
          "Trusted: Lean kernel + standard axioms; rename replaces its destination; partition text equality stands for value equality "
          "(timestamp partitions excluded).",
